@@ -2,6 +2,9 @@
    "QUERY => model_result" lines, the model result being computed by the extracted Coq code. *)
 open Model
 open Util
+type string = Stdlib.String.t
+module String = Stdlib.String
+module List = Stdlib.List
 
 let ios = int_of_string
 let zs s = z_of_int (ios s)
@@ -9,13 +12,14 @@ let si = string_of_int
 let zi x = si (int_of_z x)
 
 (* ---------------- C17 grid ---------------- *)
-let mkGrid nr nth nsc lenr ncn pow2 = { nr = nr; nth = nth; nsc = nsc; lenr = lenr; ncn = ncn; pow2 = pow2 }
-let cur_grid = ref (mkGrid Z0 Z0 Z0 Z0 Z0 false)
+let mkGrid nr nth nsc lenr ncn pow2 = { nr = nr; ntheta = nth; nsc = nsc; lenr = lenr; ncn = ncn; pow2 = pow2 }
+let z0 = z_of_int 0
+let cur_grid = ref (mkGrid z0 z0 z0 z0 z0 false)
 let cur_radii : q list ref = ref []
 let cur_angles : q list ref = ref []
 
 let mk_grid nr nth nsc =
-  let g0 = mkGrid nr nth nsc (Z.sub nr nsc) Z0 (gen_pow2flag nth) in
+  let g0 = mkGrid nr nth nsc (Z.sub nr nsc) z0 (gen_pow2flag nth) in
   mkGrid nr nth nsc (Z.sub nr nsc) (gen_ncn g0) (gen_pow2flag nth)
 
 let rec nth_q l i = match l with [] -> failwith "nth_q" | x :: r -> if i = 0 then x else nth_q r (i - 1)
@@ -26,7 +30,7 @@ let grid_query (toks : string list) : string =
   | ["G"; nr; nth; nsc] ->
     cur_grid := mk_grid (zs nr) (zs nth) (zs nsc);
     let g = !cur_grid in
-    Printf.sprintf "%s %s %s" (zi g.lenr) (zi g.ncn) (zi (Z.mul g.nr g.nth))
+    Printf.sprintf "%s %s %s" (zi g.lenr) (zi g.ncn) (zi (Z.mul g.nr g.ntheta))
   | "R" :: rs -> cur_radii := List.map qf rs; si (List.length rs)
   | "A" :: rs -> cur_angles := List.map qf rs; si (List.length rs)
   | ["W"; x] -> Printf.sprintf "%s %s" (zi (gen_wrap g (zs x))) (zi (spec_wrap g (zs x)))
@@ -48,7 +52,7 @@ let grid_query (toks : string list) : string =
     let nr = int_of_z g.nr in
     let r k = nth_q !cur_radii k and a k = nth_q !cur_angles k in
     let sub (x : q) (y : q) : q = Obj.magic (qsc.ssub (Obj.magic x) (Obj.magic y)) in
-    let zero = { qnum = Z0; qden = XH } in
+    let zero = q_of_float 0.0 in
     let h1 = if i <= 0 then zero else sub (r i) (r (i-1)) in
     let h2 = if i >= nr - 1 then zero else sub (r (i+1)) (r i) in
     let wm = int_of_z (spec_wrap g (z_of_int (j-1))) and w0 = int_of_z (spec_wrap g (z_of_int j)) in
@@ -57,18 +61,122 @@ let grid_query (toks : string list) : string =
   | "SE" :: rho :: [] -> zi (q_split_explicit !cur_radii (qf rho))
   | "SA" :: nr :: qs ->
     let arr = Array.of_list (List.map (fun s -> s = "1") qs) in
-    let q (i : z) = let k = int_of_z i - 2 in if k >= 0 && k < Array.length arr then arr.(k) else false in
+    let q i = let k = int_of_z i - 2 in if k >= 0 && k < Array.length arr then arr.(k) else false in
     zi (split_auto (zs nr) q)
   | ["C"] ->
     let rc = every_second !cur_radii and ac = every_second !cur_angles in
-    Printf.sprintf "%s %s | %s | %s" (zi (coarse_nr g.nr)) (zi (coarse_nth g.nth))
+    Printf.sprintf "%s %s | %s | %s" (zi (coarse_nr g.nr)) (zi (coarse_nth g.ntheta))
       (String.concat " " (List.map qhex rc)) (String.concat " " (List.map qhex ac))
+  | _ -> "?unknown-query"
+
+
+(* ---------------- C14 / C15 / C16 linear algebra ---------------- *)
+let tq (x : q) : Model.t = Obj.magic x
+let qt (x : Model.t) : q = Obj.magic x
+let qfl (s : string) : Model.t = tq (qf s)
+let fields (toks : string list) : string list list =
+  (* split a token list at "|" *)
+  let rec go acc cur = function
+    | [] -> List.rev (List.rev cur :: acc)
+    | "|" :: r -> go (List.rev cur :: acc) [] r
+    | x :: r -> go acc (x :: cur) r in
+  go [] [] toks
+let fmax l = List.fold_left (fun a x -> Float.max a (Float.abs x)) 0.0 l
+let eps = epsilon_float
+
+let verdict ~n ~wellcond ~(x_impl : float list) ~(x_model : Model.t list) ~(resid : Model.t list)
+            ~(norm_a : float) ~(bmax : float) ?(extra = "") () =
+  let xm = List.map (fun v -> float_of_q (qt v)) x_model in
+  let scale = Float.max (fmax xm) 1e-300 in
+  let fwd = (List.fold_left2 (fun a xi xj -> Float.max a (Float.abs (xi -. xj))) 0.0 x_impl xm) /. scale in
+  let r = fmax (List.map (fun v -> float_of_q (qt v)) resid) in
+  let bwd = r /. (Float.max (norm_a *. fmax x_impl +. bmax) 1e-300) in
+  let tol_b = float_of_int (max n 4) *. 256.0 *. eps in
+  let ok = (bwd <= tol_b) && ((not wellcond) || fwd <= 1e-9) && (List.for_all Float.is_finite x_impl) in
+  Printf.sprintf "CHECK %s fwd=%.3e bwd=%.3e tolb=%.3e%s" (if ok then "ok" else "FAIL") fwd bwd tol_b extra
+
+let tri_slots : tri array = Array.make 8 q_tri_default
+let inv_tri = inv_SymmetricTridiagonalSolver
+let obs_tri (t : tri) : string =
+  let l = function None -> "null" | Some v -> String.concat " " (List.map (fun x -> qhex (qt x)) v) in
+  Printf.sprintf "%s %s | %s | %s | %s" (zi t.t_dim) (if t.t_cyclic then "1" else "0") (l t.t_main) (l t.t_sub)
+    (if t.t_cyclic then qhex (qt t.t_corner) else "-")
+
+let linalg_query (toks : string list) : string =
+  match toks with
+  | "TS" :: cyc :: n :: wc :: "|" :: rest ->
+    (match fields rest with
+     | [main; sub; [corner]; b; ximpl] ->
+       let cyc = cyc = "1" and n = ios n in
+       let mainq = List.map qfl main and subq = List.map qfl sub and cq = qfl corner and bq = List.map qfl b in
+       let x_impl = List.map fl ximpl in
+       let xi_q = List.map (fun f -> tq (q_of_float f)) x_impl in
+       let x_model = if cyc then q_solve_cyc mainq subq cq bq else q_solve_tri mainq subq bq in
+       let ax = if cyc then q_matvec_cyc mainq subq cq xi_q else q_matvec_tri mainq subq xi_q in
+       let resid = List.map2 (fun a b -> qsc.ssub a b) ax bq in
+       let fm = List.map fl main and fs = List.map fl sub in
+       let norm_a = fmax fm +. 2.0 *. fmax fs +. Float.abs (fl corner) in
+       verdict ~n ~wellcond:(wc = "1") ~x_impl ~x_model ~resid ~norm_a ~bmax:(fmax (List.map fl b)) ()
+     | _ -> "?bad-TS")
+  | "DS" :: "|" :: rest ->
+    (match fields rest with
+     | [dg; b] -> String.concat " " (List.map (fun x -> qhex (qt x)) (q_diag_solve (List.map qfl dg) (List.map qfl b)))
+     | _ -> "?bad-DS")
+  | "T" :: "new" :: slot :: n :: cyc :: "|" :: rest ->
+    (match fields rest with
+     | [main; sub; [corner]] ->
+       let t = q_mkTri (zs n) (Some (List.map qfl main)) (Some (List.map qfl sub)) (qfl corner) (cyc = "1") false (tq (qf "0x0p+0")) in
+       tri_slots.(ios slot) <- t; obs_tri t
+     | _ -> "?bad-T-new")
+  | ["T"; "default"; slot] -> tri_slots.(ios slot) <- q_tri_default; obs_tri q_tri_default
+  | "T" :: "solve" :: slot :: "|" :: b ->
+    let (t', x) = q_tri_solve tri_slots.(ios slot) (List.map qfl b) in
+    tri_slots.(ios slot) <- t';
+    String.concat " " (List.map (fun v -> qhex (qt v)) x) ^ " ; " ^ obs_tri t'
+  | ["T"; op; dst; src] ->
+    let d = ios dst and s = ios src in
+    let so = q_obj_of_tri tri_slots.(s) in
+    let (rules, is_move, fresh) = (match op with
+      | "copyctor" -> (gen_SymmetricTridiagonalSolver_copy_ctor, false, true)
+      | "copyassign" -> (gen_SymmetricTridiagonalSolver_copy_assign, false, false)
+      | "movector" -> (gen_SymmetricTridiagonalSolver_move_ctor, true, true)
+      | "moveassign" -> (gen_SymmetricTridiagonalSolver_move_assign, true, false)
+      | _ -> failwith "bad op") in
+    let old = if fresh then q_obj_of_tri q_tri_default else q_obj_of_tri tri_slots.(d) in
+    let nd = q_tri_of_obj (q_apply_target inv_tri is_move rules so old) in
+    let ns = q_tri_of_obj (q_apply_source rules so) in
+    if d <> s then begin tri_slots.(d) <- nd; tri_slots.(s) <- ns end;
+    obs_tri tri_slots.(d) ^ " ; " ^ obs_tri tri_slots.(s)
+  | "LUT" :: n :: wc :: "|" :: rest | "LUA" :: n :: wc :: "|" :: rest ->
+    let n = ios n in
+    let (rows, b, ximpl) = (match List.hd toks, fields rest with
+      | "LUT", [trip; b; ximpl] ->
+        let ts = List.map (fun s -> match String.split_on_char ':' s with
+          | [r; c; v] -> ((zs r, zs c), qfl v) | _ -> failwith "bad triplet") trip in
+        (q_csr_of_triplets (nat_of_int n) ts, b, ximpl)
+      | "LUA", [vals; cols; starts; b; ximpl] ->
+        (q_csr_of_arrays (List.map qfl vals) (List.map zs cols) (List.map zs starts), b, ximpl)
+      | _ -> failwith "bad LU line") in
+    let bq = List.map qfl b in
+    let lu = q_lu_factor rows in
+    let x_model = q_lu_solve lu bq in
+    let x_impl = List.map fl ximpl in
+    let xi_q = List.map (fun f -> tq (q_of_float f)) x_impl in
+    let ax = q_csr_apply rows xi_q in
+    let resid = List.map2 (fun a b -> qsc.ssub a b) ax bq in
+    let norm_a = List.fold_left (fun a r -> Float.max a (List.fold_left (fun s (_, v) -> s +. Float.abs (float_of_q (qt v))) 0.0 r)) 0.0 rows in
+    let piv = List.map (fun v -> Float.abs (float_of_q (qt v))) (q_pivots lu) in
+    let minp = List.fold_left Float.min infinity piv in
+    verdict ~n ~wellcond:(wc = "1") ~x_impl ~x_model ~resid ~norm_a ~bmax:(fmax (List.map fl b))
+      ~extra:(Printf.sprintf " minpivot=%.3e" minp) ()
+  | "PROP" :: _ -> "ok"
   | _ -> "?unknown-query"
 
 let () =
   let mode = if Array.length Sys.argv > 1 then Sys.argv.(1) else "" in
   let handler = match mode with
     | "grid" -> grid_query
+    | "linalg" -> linalg_query
     | _ -> prerr_endline ("unknown mode " ^ mode); exit 2 in
   try
     while true do
